@@ -3,10 +3,41 @@
 //! Add-only re-exports of crate-private items so that an external harness can drive the real
 //! code in-process. Nothing here changes behaviour; with the feature off this module does not exist.
 
-pub use crate::ansi::{ANSIParser, AnsiString};
-pub use crate::event::{Event, EventHandler, UpdateScreen};
-pub use crate::item::{ItemPool, MatchedItem, RankBuilder, RankCriteria};
+pub use crate::ansi::{ANSIParser, AnsiString, AnsiStringIterator};
+pub use crate::engine::all::MatchAllEngine;
+pub use crate::engine::andor::{AndEngine, OrEngine};
+pub use crate::engine::exact::{ExactEngine, ExactMatchingParam};
+pub use crate::engine::fuzzy::{FuzzyAlgorithm, FuzzyEngine, FuzzyEngineBuilder};
+pub use crate::engine::regexp::RegexEngine;
+pub use crate::event::{parse_event, Event, EventHandler, EventReceiver, EventSender, UpdateScreen};
+pub use crate::global::{current_run_num, mark_new_run};
+pub use crate::header::Header;
+pub use crate::helper::item::DefaultSkimItem;
+pub use crate::input::{parse_action_arg, parse_key_action, ActionChain, Input};
+pub use crate::item::{parse_criteria, ItemPool, MatchedItem, RankBuilder, RankCriteria};
+pub use crate::matcher::{Matcher, MatcherControl};
+pub use crate::model::Model;
 pub use crate::orderedvec::OrderedVec;
+pub use crate::previewer::Previewer;
 pub use crate::query::Query;
+pub use crate::reader::{Reader, ReaderControl};
 pub use crate::selection::Selection;
 pub use crate::spinlock::SpinLock;
+pub use crate::theme::{ColorTheme, DEFAULT_THEME};
+pub use crate::util::{
+    accumulate_text_width, escape_single_quote, inject_command, print_item, reshape_string, InjectContext,
+    LinePrinter,
+};
+
+/// `ansi::merge_fragments` is private; expose it unchanged.
+pub fn merge_fragments(
+    old: &[(tuikit::attr::Attr, (u32, u32))],
+    new: &[(tuikit::attr::Attr, (u32, u32))],
+) -> Vec<(tuikit::attr::Attr, (u32, u32))> {
+    crate::ansi::verif_merge_fragments(old, new)
+}
+
+/// the default key map of `input.rs`
+pub fn default_key_map() -> std::collections::HashMap<tuikit::key::Key, ActionChain> {
+    crate::input::verif_default_key_map()
+}
